@@ -39,6 +39,8 @@ static void nv_cluster_assign(struct nv_cluster* c, int64_t sample, int64_t grou
   nv_as_count = nv_as_count + 1; nv_as_sample = sample; nv_as_group = group;
 }
 static int64_t nv_dataset_samples(const struct nv_dataset* d) { return d->samples; }
+/* the stump rule (include/nano/wlearner/stump.h): group 0 below the threshold, group 1 at or above it */
+#define NV_STUMP_GROUP(v, thr) (((v) < (thr)) ? 0 : 1)
 #define NV_LS_RECORD(d, s, f) { nv_ls_count = nv_ls_count + 1; nv_ls_dataset = (d); nv_ls_samples = *(s); nv_ls_feature = (f); }
 #define NV_GHOST_INIT (nv_add_count == 0 && nv_as_count == 0 && nv_ls_count == 0)
 #define NV_GHOST_ASSIGNS __CPROVER_assigns(nv_add_count, nv_add_dst, nv_add_src, nv_as_count, nv_as_sample, nv_as_group, nv_ls_count, nv_ls_feature, nv_ls_dataset, nv_ls_samples)
